@@ -269,9 +269,23 @@ type cmpAtom struct {
 func cmpAtomsOf(e ast.Expr) []cmpAtom {
 	var out []cmpAtom
 	flip := map[token.Token]token.Token{token.LSS: token.GEQ, token.GEQ: token.LSS, token.GTR: token.LEQ, token.LEQ: token.GTR, token.EQL: token.NEQ, token.NEQ: token.EQL}
+	depth := 0
 	var walk func(e ast.Expr, neg bool)
 	walk = func(e ast.Expr, neg bool) {
 		switch x := ast.Unparen(e).(type) {
+		case *ast.Ident:
+			// a boolean local that abbreviates a condition, a predicate helper that returns one
+			if d, ok := boolLocalUse[x]; ok && depth < 4 {
+				depth++
+				walk(d, neg)
+				depth--
+			}
+		case *ast.CallExpr:
+			if d, ok := predInline[x]; ok && depth < 4 {
+				depth++
+				walk(d, neg)
+				depth--
+			}
 		case *ast.UnaryExpr:
 			if x.Op == token.NOT {
 				walk(x.X, !neg)
